@@ -7,6 +7,8 @@ import random
 import detsched as det
 import lib
 
+det.TIMER_EPS = 0.001     # a timed wait returns strictly after its deadline (a timeout at exactly `now` would spin in virtual time)
+
 PROP = "C04"
 MACHINE = None
 NEEDS_POOL = True
@@ -16,6 +18,17 @@ KINDS = ["map", "flat_map", "poll", "retry", "throttle", "timeout", "cancel_on_s
 
 
 def gen(rng):
+    if rng.random() < 0.12:
+        # a timeout that fires on queued work whose done-callbacks (run by the timeout thread) submit again
+        others = [rng.choice(KINDS) for _ in range(rng.randint(0, 2))]
+        layers = others[:]
+        layers.insert(rng.randint(0, len(layers)), "timeout")
+        progs = [["submit_blocked", "submit_blocked", rng.choice(["addcb_nested", "addcb"]), rng.choice(["submit_blocked", "submit_nested"]),
+                  "addcb_nested", "result"]]
+        for _ in range(rng.randint(0, 2)):
+            progs.append([rng.choice(["submit", "submit_nested", "submit_blocked", "addcb_nested", "cancel", "result"]) for _ in range(rng.randint(1, 3))])
+        return {"base": "pool", "layers": layers, "progs": progs, "nested_in_map": rng.random() < 0.3, "shutdown": rng.random() < 0.3,
+                "fail": rng.random() < 0.3, "timeout": 2, "workers": 1}
     depth = rng.randint(1, 4)
     layers = [rng.choice(KINDS) for _ in range(depth)]
     nthreads = rng.randint(1, 3)
@@ -23,10 +36,14 @@ def gen(rng):
     for t in range(nthreads):
         ops = []
         for _ in range(rng.randint(1, 4)):
-            ops.append(rng.choice(["submit", "submit", "submit_nested", "submit_nested", "cancel", "addcb", "addcb_nested", "result"]))
+            ops.append(rng.choice(["submit", "submit", "submit_nested", "submit_nested", "cancel", "addcb", "addcb_nested", "result",
+                                   "submit_blocked", "addcb_nested"]))
         progs.append(ops)
     return {"base": rng.choice(["sync", "sync", "pool"]), "layers": layers, "progs": progs,
-            "nested_in_map": rng.random() < 0.4, "shutdown": rng.random() < 0.4, "fail": rng.random() < 0.3}
+            "nested_in_map": rng.random() < 0.4, "shutdown": rng.random() < 0.4, "fail": rng.random() < 0.3,
+            # a timeout that really fires (on work blocked until t=5, queued behind a small pool): the timeout thread then
+            # cancels futures and runs their done-callbacks, which may submit again
+            "timeout": rng.choice([10 ** 6, 10 ** 6, 2]), "workers": rng.choice([1, 2])}
 
 
 def execute(p, chooser):
@@ -52,7 +69,7 @@ def execute(p, chooser):
             obs["nested_returned"] += 1
 
         with det.atomic():
-            ex = Executors.sync() if p["base"] == "sync" else Executors.thread_pool(max_workers=2)
+            ex = Executors.sync() if p["base"] == "sync" else Executors.thread_pool(max_workers=p.get("workers", 2))
             for i, k in enumerate(p["layers"]):
                 if k == "map":
                     ex = ex.with_map(lambda v: (nested() if p["nested_in_map"] else None, v)[1])
@@ -68,7 +85,7 @@ def execute(p, chooser):
                 elif k == "throttle":
                     ex = ex.with_throttle(1)
                 elif k == "timeout":
-                    ex = ex.with_timeout(10 ** 6)
+                    ex = ex.with_timeout(p.get("timeout", 10 ** 6))
                 else:
                     ex = ex.with_cancel_on_shutdown()
             box["top"] = ex
@@ -97,6 +114,11 @@ def execute(p, chooser):
             nested()
             return 2
 
+        def blocked():
+            if p["base"] == "pool" and det.S.now < 5:
+                det.sleep(5 - det.S.now)
+            return 3
+
         def client(ops):
             def run():
                 futs = []
@@ -106,6 +128,8 @@ def execute(p, chooser):
                             futs.append(top.submit(plain))
                         elif op == "submit_nested":
                             futs.append(top.submit(with_nested))
+                        elif op == "submit_blocked":
+                            futs.append(top.submit(blocked))
                         elif op == "cancel" and futs:
                             futs[-1].cancel()
                         elif op == "addcb" and futs:
